@@ -3,6 +3,7 @@ import LhasaV.Model.Glob
 import LhasaV.Lemmas.ListProps
 import LhasaV.Lemmas.GlobFs
 import LhasaV.Lemmas.PrintList
+import LhasaV.Lemmas.GenTool
 /-!
 # C19 — list output renders every member's header fields faithfully in Unix-LHA layout
 (structure theorems are being proved in Lemmas/ListProps.lean; this file re-exports what is done)
@@ -102,5 +103,11 @@ theorem total_line (pk : Packer) (es : List Entry) (hok : ∀ e ∈ es, EntryOk 
             ((es.filter (selected fl)).map dataLen).sum ++ str " " ++
           outputTimestamp now (archiveMtime % two32) ++ str "\n")) :=
   PrintList.total_line_l pk es hok henc hpk fuel hf quiet now archiveMtime fl hq hn hn1 hl hc
+
+/-- **Translator tie**: the OS-name column of the listing model is `os_type_to_string` of src/list.c, evaluated from the
+working tree for all 256 identifier bytes on every run (`Gen/Tool.lean`). -/
+theorem os_names_match_source :
+    ∀ b : Fin 256, (ListOut.str (ListOut.osTypeToString b.val)).map (·.toNat) = Gen.osTypeStrings.getD b.val [] :=
+  GenTool.os_names_match_source
 
 end LhasaV.Props.C19
